@@ -31,6 +31,7 @@ counters!(
     fault_enter_eintr,
     fault_enter_etime,
     fault_enter_ebusy,
+    fault_enter_eagain,
     fault_setup_fail,
     fault_feature_missing,
     fault_mmap_fail,
